@@ -2,13 +2,16 @@
 // under the Go race detector.
 //
 // A scenario is a tuple of operation classes ("Nonces:unseen", "AddHeader:new", ...), one per goroutine.
-// The parent process (`<exe> race <scenarios.ndjson> ...`) starts one child process per scenario
-// (`<exe> one <iters> <op>...`) because
-//   - a runtime `fatal error: concurrent map ...` kills the process, and
-//   - the race detector reports every distinct pair of stacks only once per process.
+// The parent process (`<exe> race <scenarios.ndjson> ...`) runs the scenarios in child processes
+// (`<exe> batch <iters> <file> <from> <to>`, a few dozen scenarios per child, several children in parallel):
+// a runtime `fatal error: concurrent map ...` kills the process (the parent then continues the batch in a new
+// child), and a race-enabled process is expensive to start. Output is attributed to a scenario by begin/end
+// markers on stderr. The detector reports a given pair of stacks once per process, so within one child only the
+// first scenario exhibiting a particular race is attributed -- enough for the verdict (signatures name the
+// racing methods), statistics of later scenarios are lower bounds.
 //
-// The child builds a fresh object, creates one closure per goroutine, releases them through a start
-// barrier and lets each run `iters` iterations. Verdict per scenario = what the detector/runtime printed:
+// For every scenario the child builds a fresh object, creates one closure per goroutine, releases them through
+// a start barrier and lets each run `iters` iterations. Verdict per scenario = what the detector/runtime printed:
 // `WARNING: DATA RACE` (GORACE=halt_on_error=0 exitcode=66) or `fatal error: concurrent map`.
 // No model logic here: which scenarios exist and which of them the lock discipline predicts to be
 // racy comes from TLC; this package only runs and reports.
@@ -133,29 +136,13 @@ func parseReport(out string, methodRe *regexp.Regexp) (methods []string, excerpt
 	return methods, excerpt
 }
 
-func runChild(exe string, s Scenario, iters int, methodRe *regexp.Regexp, timeout time.Duration) Outcome {
-	o := Outcome{Scenario: s}
-	args := append([]string{"one", strconv.Itoa(iters)}, s.Ops...)
-	cmd := exec.Command(exe, args...)
-	cmd.Env = append(os.Environ(), "GORACE=halt_on_error=0 exitcode=66 history_size=2", "GOMAXPROCS=4")
-	var buf bytes.Buffer
-	cmd.Stdout = &buf
-	cmd.Stderr = &buf
-	if err := cmd.Start(); err != nil {
-		o.Err = err.Error()
-		return o
-	}
-	done := make(chan error, 1)
-	go func() { done <- cmd.Wait() }()
-	var werr error
-	select {
-	case werr = <-done:
-	case <-time.After(timeout):
-		_ = cmd.Process.Kill()
-		<-done
-		o.Err = "timeout (deadlock?) after " + timeout.String()
-	}
-	out := buf.String()
+const (
+	markBegin = "@@SCN-BEGIN "
+	markEnd   = "@@SCN-END "
+)
+
+// classify fills an Outcome from the stderr text produced while its scenario ran.
+func classify(o *Outcome, out string, methodRe *regexp.Regexp) {
 	if strings.Contains(out, "WARNING: DATA RACE") {
 		o.Race = true
 		o.Methods, o.Report = parseReport(out, methodRe)
@@ -170,18 +157,77 @@ func runChild(exe string, s Scenario, iters int, methodRe *regexp.Regexp, timeou
 			o.Report = out[i:e]
 		}
 	}
-	if o.Race || o.Fatal {
-		o.Err = ""
-		return o
-	}
-	if werr != nil && o.Err == "" {
-		tail := out
-		if len(tail) > 1500 {
-			tail = tail[len(tail)-1500:]
+}
+
+// runBatch runs scenarios scen[from:to] in child processes (one process runs as many as it survives: a runtime
+// fatal error ends the process, the rest of the batch continues in a new one). Output is attributed to a
+// scenario through begin/end markers on stderr.
+func runBatch(exe, file string, scen []Scenario, from, to, iters int, methodRe *regexp.Regexp, outs []Outcome) {
+	for from < to {
+		cmd := exec.Command(exe, "batch", strconv.Itoa(iters), file, strconv.Itoa(from), strconv.Itoa(to))
+		cmd.Env = append(os.Environ(), "GORACE=halt_on_error=0 exitcode=66", "GOMAXPROCS=4")
+		var buf bytes.Buffer
+		cmd.Stdout = &buf
+		cmd.Stderr = &buf
+		timeout := time.Duration(30+2*(to-from)) * time.Second
+		timedOut := false
+		if err := cmd.Start(); err != nil {
+			for i := from; i < to; i++ {
+				outs[i].Err = err.Error()
+			}
+			return
 		}
-		o.Err = fmt.Sprintf("child exited with %v: %s", werr, tail)
+		done := make(chan error, 1)
+		go func() { done <- cmd.Wait() }()
+		select {
+		case <-done:
+		case <-time.After(timeout):
+			_ = cmd.Process.Kill()
+			<-done
+			timedOut = true
+		}
+		out := buf.String()
+		next := from
+		for i := from; i < to; i++ {
+			bm := markBegin + strconv.Itoa(i) + "\n"
+			bi := strings.Index(out, bm)
+			if bi < 0 {
+				break
+			}
+			rest := out[bi+len(bm):]
+			em := markEnd + strconv.Itoa(i) + "\n"
+			ei := strings.Index(rest, em)
+			finished := ei >= 0
+			if finished {
+				rest = rest[:ei]
+			}
+			classify(&outs[i], rest, methodRe)
+			next = i + 1
+			if !finished {
+				if !outs[i].Race && !outs[i].Fatal {
+					tail := rest
+					if len(tail) > 1200 {
+						tail = tail[len(tail)-1200:]
+					}
+					if timedOut {
+						outs[i].Err = "timeout (deadlock?): " + tail
+					} else {
+						outs[i].Err = "child died: " + tail
+					}
+				}
+				break
+			}
+		}
+		if next == from { // nothing ran at all
+			tail := out
+			if len(tail) > 1200 {
+				tail = tail[len(tail)-1200:]
+			}
+			outs[from].Err = "child produced no scenario marker: " + tail
+			next = from + 1
+		}
+		from = next
 	}
-	return o
 }
 
 // Drive runs all scenarios (children of `exe`) with bounded parallelism and reports through vtrace.
@@ -200,24 +246,51 @@ func Drive(prop, exe string, scen []Scenario, iters int, methodRe *regexp.Regexp
 	if par > 8 {
 		par = 8
 	}
-	// the pipeline must be able to see a race at all
-	st := runChild(exe, Scenario{Ops: []string{SelfTest, SelfTest}}, 50, methodRe, 60*time.Second)
-	if !st.Race {
-		vtrace.Broken("race pipeline self-test: the deliberately racy scenario was NOT reported by the detector " +
-			"(binary not built with -race, or report parsing broken): " + st.Err)
+	outs := make([]Outcome, len(scen))
+	for i := range scen {
+		outs[i].Scenario = scen[i]
+	}
+	// the pipeline must be able to see a race at all: scenario -1 of every child file is the deliberate race
+	stFile, err := writeScenarioFile([]Scenario{{Ops: []string{SelfTest, SelfTest}}})
+	if err != nil {
+		vtrace.Broken(err.Error())
 		return
 	}
-	outs := make([]Outcome, len(scen))
+	defer os.Remove(stFile)
+	stOut := make([]Outcome, 1)
+	runBatch(exe, stFile, nil, 0, 1, 50, methodRe, stOut)
+	if !stOut[0].Race {
+		vtrace.Broken("race pipeline self-test: the deliberately racy scenario was NOT reported by the detector " +
+			"(binary not built with -race, or report parsing broken): " + stOut[0].Err)
+		return
+	}
+	file, err := writeScenarioFile(scen)
+	if err != nil {
+		vtrace.Broken(err.Error())
+		return
+	}
+	defer os.Remove(file)
+	batch := (len(scen) + par*3 - 1) / (par * 3)
+	if batch > 60 {
+		batch = 60
+	}
+	if batch < 1 {
+		batch = 1
+	}
 	var wg sync.WaitGroup
 	sem := make(chan struct{}, par)
-	for i := range scen {
+	for from := 0; from < len(scen); from += batch {
+		to := from + batch
+		if to > len(scen) {
+			to = len(scen)
+		}
 		wg.Add(1)
 		sem <- struct{}{}
-		go func(i int) {
+		go func(from, to int) {
 			defer wg.Done()
 			defer func() { <-sem }()
-			outs[i] = runChild(exe, scen[i], iters, methodRe, 60*time.Second)
-		}(i)
+			runBatch(exe, file, scen, from, to, iters, methodRe, outs)
+		}(from, to)
 	}
 	wg.Wait()
 
@@ -330,14 +403,49 @@ func explainedByPair(s Scenario, racy map[string]bool) bool {
 	return false
 }
 
-// Child runs one scenario in this process. mk(op, g) returns the body executed by goroutine g for
-// iteration i. It never returns: the process exits 0 (or 66 if the detector reported something).
-func Child(ops []string, iters int, mk func(op string, g int) func(i int)) {
+func writeScenarioFile(scen []Scenario) (string, error) {
+	f, err := os.CreateTemp("", "scen-*.txt")
+	if err != nil {
+		return "", err
+	}
+	for _, s := range scen {
+		fmt.Fprintln(f, strings.Join(s.Ops, " "))
+	}
+	return f.Name(), f.Close()
+}
+
+// keep every object under test reachable until the process ends: the detector suppresses reports on
+// addresses that already had one, so memory must not be reused by a later scenario
+var keepAlive []interface{}
+
+// ChildBatch runs scenarios [from, to) of the scenario file in this process, a fresh object each.
+// setup() creates the object and returns the factory of per-goroutine bodies: mk(op, g) -> body(i).
+// It never returns.
+func ChildBatch(file string, from, to, iters int, setup func(nGoroutines int) (obj interface{}, mk func(op string, g int) func(i int))) {
+	raw, err := os.ReadFile(file)
+	if err != nil {
+		fmt.Fprintln(os.Stderr, err)
+		os.Exit(3)
+	}
+	lines := strings.Split(strings.TrimSpace(string(raw)), "\n")
+	for idx := from; idx < to && idx < len(lines); idx++ {
+		ops := strings.Fields(lines[idx])
+		os.Stderr.WriteString(markBegin + strconv.Itoa(idx) + "\n")
+		runScenario(ops, iters, setup)
+		os.Stderr.WriteString(markEnd + strconv.Itoa(idx) + "\n")
+	}
+	os.Exit(0)
+}
+
+var racyCounter int
+
+func runScenario(ops []string, iters int, setup func(n int) (interface{}, func(op string, g int) func(i int))) {
+	obj, mk := setup(len(ops))
+	keepAlive = append(keepAlive, obj)
 	bodies := make([]func(i int), len(ops))
-	var racy int
 	for g, op := range ops {
 		if op == SelfTest {
-			bodies[g] = func(i int) { racy++ } // deliberate unsynchronised read-modify-write
+			bodies[g] = func(i int) { racyCounter++ } // deliberate unsynchronised read-modify-write
 			continue
 		}
 		bodies[g] = mk(op, g)
@@ -363,9 +471,7 @@ func Child(ops []string, iters int, mk func(op string, g int) func(i int)) {
 	}
 	close(start)
 	wg.Wait()
-	_ = racy
-	time.Sleep(5 * time.Millisecond) // let handler goroutines spawned by the object finish
-	os.Exit(0)
+	time.Sleep(2 * time.Millisecond) // let handler goroutines spawned by the object finish
 }
 
 // MustJSON is a helper for debugging output.
